@@ -880,6 +880,15 @@ func (w *World) userDoInner(a string) error {
 		}
 		ro.Spec.Disabled = a == "user.disable"
 		return w.S.Put(ro)
+	case a == "user.switchstyle": // the strategy is switched from canary to blueGreen while nothing is being released
+		ro := w.getRollout()
+		if ro == nil || ro.Spec.Strategy.Canary == nil {
+			return nil
+		}
+		c := ro.Spec.Strategy.Canary
+		ro.Spec.Strategy.BlueGreen = &v1beta1.BlueGreenStrategy{Steps: c.Steps, TrafficRoutings: c.TrafficRoutings, FailureThreshold: c.FailureThreshold}
+		ro.Spec.Strategy.Canary = nil
+		return w.S.Put(ro)
 	case a == "user.trdelete":
 		tr := &v1alpha1.TrafficRouting{}
 		if !w.S.Load(w.NS, TRName, tr) {
@@ -1036,6 +1045,8 @@ func (w *World) userEnabled(a string, ro *v1beta1.Rollout) bool {
 	case a == "user.release3late":
 		_, succ, _ := condReason(ro.Status.Conditions, v1beta1.RolloutConditionSucceeded)
 		return w.Ghost.Rev == 2 && ro.Status.Phase == v1beta1.RolloutPhaseHealthy && succ == "True" && !deleting
+	case a == "user.switchstyle":
+		return ro.Status.Phase == v1beta1.RolloutPhaseHealthy && !deleting && ro.Spec.Strategy.Canary != nil
 	case a == "user.editidle": // the plan is edited while nothing is being released (validation allows any change then)
 		return ro.Status.Phase == v1beta1.RolloutPhaseHealthy && !deleting && len(w.Cfg.Steps2) > 0
 	case a == "user.deleteidle":
